@@ -341,6 +341,15 @@ pub struct Vm {
     pub unit_registry: UnitRegistry,
 }
 
+/// Verification hook (feature `verif-hooks`): place a value on the VM stack (lets a harness
+/// supply operands, such as date-times, that have no constant-table representation).
+#[cfg(feature = "verif-hooks")]
+impl Vm {
+    pub fn verif_push(&mut self, value: Value) {
+        self.stack.push(value);
+    }
+}
+
 impl Vm {
     pub fn new() -> Self {
         Self {
